@@ -30,9 +30,11 @@ package performance
 // The daily performance factor: with v0/v1 the sums of the values at the start/end of the day, inflow
 // and outflow the external flows of the day (outflows are negative numbers):
 //     perf = 1                                  if nothing changed and nothing flowed
+//     perf = 1                                  if start value + inflow = 0 and end value - outflow = 0 (only flows on an empty base)
 //     perf = (v1 - outflow) / (v0 + inflow)     otherwise
 // Ghosts s0, s1, fin, fout are the sums the four loops compute (running sums over the maps).
-//@ def perfOf(v0 float64, v1 float64, inflow float64, outflow float64) float64 := (v0 == v1 && inflow == 0.0 && outflow == 0.0) ? 1.0 : (v1 - outflow) / (v0 + inflow)
+//@ def perfOf(v0 float64, v1 float64, inflow float64, outflow float64) float64 := (v0 == v1 && inflow == 0.0 && outflow == 0.0) ? 1.0
+//@     : ((v0 + inflow == 0.0 && v1 - outflow == 0.0) ? 1.0 : (v1 - outflow) / (v0 + inflow))
 //@ func Performance
 //@   requires dpv != nil
 //@   modifies nothing
